@@ -2,7 +2,7 @@
    no code shared with the restorer model) computes the same projection as the library model's restorer. *)
 From Coq Require Import List String Ascii Bool Arith Lia Sorting.Sorted Permutation.
 Import ListNotations.
-Require Import SDJ.Json SDJ.Model2 SDJ.ATree SDJ.T2a SDJ.T2b SDJ.T2c SDJ.T2d SDJ.T2e SDJ.T2h SDJ.T2j SDJ.T2k SDJ.T1b SDJ.T1m SDJ.RefVerify.
+Require Import SDJ.Json SDJ.Model2 SDJ.ATree SDJ.T2a SDJ.T2b SDJ.T2c SDJ.T2d SDJ.T2e SDJ.T2f SDJ.T2h SDJ.T2j SDJ.T2k SDJ.T2m SDJ.Issuer1 SDJ.T1a SDJ.T1b SDJ.T1c SDJ.T1m SDJ.RefVerify.
 Local Open Scope string_scope.
 
 (* ---------- sorted association lists ---------- *)
@@ -153,3 +153,503 @@ Proof. induction l; cbn; auto. Qed.
 Lemma foldA_none fuel l : fold_left (stepA fuel) l None = None.
 Proof. induction l; cbn; auto. Qed.
 End Steps.
+
+Section RP.
+Variable H : string -> string.
+Variable enc : list json -> string.
+Variable T : rtable.
+Notation blind := (blind H enc).
+Notation proj := (proj H enc).
+Notation wf := (wf H enc).
+Notation hdigs := (hdigs H enc).
+Notation alldigs := (alldigs H enc).
+Notation dig_item := (dig_item H enc).
+Notation dig_mem := (dig_mem H enc).
+Notation IsNode := (IsNode H enc).
+Notation hdigs_item := (hdigs_item H enc).
+Notation hdigs_mem := (hdigs_mem H enc).
+Notation adigs_item := (adigs_item H enc alldigs).
+Notation adigs_mem := (adigs_mem alldigs).
+Notation bitem := (bitem H enc).
+Notation bmem := (bmem H enc).
+
+(* the set of opened nodes is the set of digests the table knows *)
+Definition RT : Rset := fun g => match rlookup g T with Some _ => true | None => false end.
+Definition rd (k : option string) (v : json) : rdisc := match k with Some name => RMember name v | None => RElement v end.
+
+(* every table entry for a digest embedded in t is the disclosure of the hidden node with that digest *)
+Definition table_ok (t : atree) : Prop :=
+  forall g r, In g (alldigs t) -> rlookup g T = Some r -> exists k v, IsNode g k v t /\ r = rd k v.
+
+Lemma has_key_false k (kvs : list (string * json)) : ~ In k (map fst kvs) -> has_key k kvs = false.
+Proof.
+  intros Hn. unfold has_key. apply not_true_is_false. intros Ht. apply existsb_exists in Ht as [kv [Hin Hq]].
+  apply String.eqb_eq in Hq. apply Hn. apply in_map_iff. exists kv. auto.
+Qed.
+
+Lemma single_placeholder_blind s : wf s -> single_placeholder (blind s) = Some None.
+Proof.
+  intros Hw. destruct s as [j|items|mems]; [inversion Hw; subst; destruct j; cbn in *; tauto || reflexivity|reflexivity|].
+  rewrite (blind_obj H enc). unfold single_placeholder. rewrite has_key_false; [reflexivity|].
+  intros Hk. apply (keys_bmems H enc) in Hk. apply in_map_iff in Hk as [[name [mk s]] [Hn Hin]]. cbn in Hn. subst name.
+  inversion Hw as [| | ? Hs Hall Hok]; subst. rewrite Forall_forall in Hok. specialize (Hok _ Hin). cbn in Hok. tauto.
+Qed.
+
+(* ---- table_ok is inherited by the children that can contain nodes ---- *)
+Lemma table_ok_item items ik s :
+  wf (AArr items) -> NoDup (alldigs (AArr items)) -> In (ik, s) items ->
+  (match ik with IDecoy _ => False | _ => True end) -> table_ok (AArr items) -> table_ok s.
+Proof.
+  intros Hw Hnd Hin Hik Hok g r Hg Hr. inversion Hw as [| ? Hall Hiok |]; subst. rewrite alldigs_arr in Hnd.
+  rewrite Forall_forall in Hall, Hiok.
+  assert (Hga : In g (adigs_item (ik, s))) by (destruct ik; cbn; auto; destruct Hik).
+  destruct (Hok g r) as (k & v & Hnode & Hq); [rewrite alldigs_arr; apply in_flat_map; eauto|assumption|].
+  exists k, v. split; [|assumption].
+  apply IsNode_arr_inv in Hnode as [(salt' & s' & Hin' & Hg' & _)|(ik' & s' & Hin' & Hn')].
+  - exfalso. assert (Hq2 : (IHid salt', s') = (ik, s)).
+    { eapply (NoDup_flat_map_same adigs_item); eauto. cbn. left. symmetry. assumption. }
+    injection Hq2 as <- <-. pose proof (NoDup_flat_map_in adigs_item _ _ Hnd Hin) as Hn1. cbn in Hn1. inversion Hn1; subst. contradiction.
+  - assert (Hg2 : In g (adigs_item (ik', s'))).
+    { pose proof (IsNode_hdigs H enc _ _ _ _ Hn') as Hh. pose proof (hdigs_alldigs H enc s' (Hall _ Hin') _ Hh) as Ha.
+      destruct ik'; cbn; auto. specialize (Hiok _ Hin'). cbn in Hiok. subst s'. destruct Ha. }
+    assert (Hq2 : (ik', s') = (ik, s)) by (eapply (NoDup_flat_map_same adigs_item); eauto).
+    injection Hq2 as _ <-. assumption.
+Qed.
+
+Lemma table_ok_mem mems name mk s :
+  wf (AObj mems) -> NoDup (alldigs (AObj mems)) -> In (name, (mk, s)) mems ->
+  (match mk with MSd _ => False | _ => True end) -> table_ok (AObj mems) -> table_ok s.
+Proof.
+  intros Hw Hnd Hin Hmk Hok g r Hg Hr. inversion Hw as [| | ? Hs Hall Hmok]; subst. rewrite alldigs_obj in Hnd.
+  rewrite Forall_forall in Hall, Hmok.
+  assert (Hga : In g (adigs_mem (name, (mk, s)))) by (destruct mk; cbn; auto; destruct Hmk).
+  destruct (Hok g r) as (k & v & Hnode & Hq); [rewrite alldigs_obj; apply in_flat_map; eauto|assumption|].
+  exists k, v. split; [|assumption].
+  apply IsNode_obj_inv in Hnode as [(name' & salt' & s' & Hin' & Hg' & _)|(name' & mk' & s' & Hin' & Hn')].
+  - (* the digest of a hidden member lives in the _sd list: another member than ours *)
+    exfalso. pose proof (Hmok _ Hin') as Hm'. cbn in Hm'. destruct Hm' as (_ & _ & Hsd).
+    unfold sd_of in Hsd. apply in_flat_map in Hsd as [[ny [ky sy]] [Hy Hgl]]. cbn in Hgl. destruct ky as [| |l]; try destruct Hgl.
+    rewrite <- Hg' in Hgl.
+    assert (Hq2 : (ny, (MSd l, sy)) = (name, (mk, s))) by (eapply (NoDup_flat_map_same adigs_mem); eauto).
+    injection Hq2 as _ <- _. destruct Hmk.
+  - assert (Hg2 : In g (adigs_mem (name', (mk', s')))).
+    { pose proof (IsNode_hdigs H enc _ _ _ _ Hn') as Hh. pose proof (hdigs_alldigs H enc s' (Hall _ Hin') _ Hh) as Ha.
+      destruct mk'; cbn; auto. pose proof (Hmok _ Hin') as Hm'. cbn in Hm'. destruct Hm' as (_ & _ & ->). destruct Ha. }
+    assert (Hq2 : (name', (mk', s')) = (name, (mk, s))) by (eapply (NoDup_flat_map_same adigs_mem); eauto).
+    injection Hq2 as _ _ <-. assumption.
+Qed.
+End RP.
+
+Section RP2.
+Variable H : string -> string.
+Variable enc : list json -> string.
+Variable T : rtable.
+Notation blind := (blind H enc).
+Notation proj := (proj H enc).
+Notation wf := (wf H enc).
+Notation hdigs := (hdigs H enc).
+Notation alldigs := (alldigs H enc).
+Notation dig_item := (dig_item H enc).
+Notation dig_mem := (dig_mem H enc).
+Notation IsNode := (IsNode H enc).
+Notation hdigs_item := (hdigs_item H enc).
+Notation hdigs_mem := (hdigs_mem H enc).
+Notation adigs_item := (adigs_item H enc alldigs).
+Notation adigs_mem := (adigs_mem alldigs).
+Notation bitem := (bitem H enc).
+Notation bmem := (bmem H enc).
+Notation RT := (RT T).
+Notation table_ok := (table_ok H enc T).
+Notation stepA := (stepA T).
+Notation stepP := (stepP T).
+Notation stepD := (stepD T).
+
+(* "whenever the reference verifier accepts this subtree, its output is the projection" *)
+Definition sound_at (s : atree) : Prop :=
+  forall fuel u j u', rprocess fuel T (blind s) u = Some (j, u') -> j = proj RT s.
+
+(* ---------- arrays ---------- *)
+Definition pitem (it : ikind * atree) : list json :=
+  let '(k, s) := it in
+  match k with
+  | IPlain => [proj RT s]
+  | IHid salt => if RT (dig_item salt s) then [proj RT s] else []
+  | IDecoy _ => [] end.
+
+Definition item_fact (it : ikind * atree) : Prop :=
+  let '(k, s) := it in
+  match k with
+  | IPlain => wf s /\ sound_at s
+  | IHid salt => wf s /\ sound_at s /\ forall r, rlookup (dig_item salt s) T = Some r -> r = RElement (blind s)
+  | IDecoy g0 => rlookup g0 T = None end.
+
+Lemma foldA_sound fuel : forall items out u out' u',
+  Forall item_fact items ->
+  fold_left (stepA fuel) (map bitem items) (Some (out, u)) = Some (out', u') ->
+  out' = (out ++ flat_map pitem items)%list.
+Proof.
+  induction items as [|[k s] r IH]; intros out u out' u' HF Hf.
+  - cbn in Hf. injection Hf as <- _. cbn. rewrite app_nil_r. reflexivity.
+  - inversion HF as [|? ? Hit HFr]; subst. cbn [map fold_left] in Hf.
+    destruct k as [|salt|g0]; cbn [T1b.bitem] in Hf; cbn [item_fact] in Hit.
+    + destruct Hit as [Hws Hsound]. unfold RefProofs.stepA at 2 in Hf. rewrite (single_placeholder_blind H enc s Hws) in Hf.
+      destruct (rprocess fuel T (blind s) u) as [[x' u1]|] eqn:Er; [|rewrite foldA_none in Hf; discriminate].
+      rewrite (IH _ _ _ _ HFr Hf). rewrite (Hsound _ _ _ _ Er). cbn [flat_map pitem]. rewrite <- app_assoc. reflexivity.
+    + destruct Hit as (Hws & Hsound & Hlook). unfold RefProofs.stepA at 2 in Hf.
+      change (single_placeholder (placeholder (dig_item salt s))) with (Some (Some (JStr (dig_item salt s)))) in Hf. cbv iota in Hf.
+      destruct (use_digest (dig_item salt s) u) as [u1|]; [|rewrite foldA_none in Hf; discriminate].
+      cbn [flat_map pitem]. unfold RefProofs.RT at 1.
+      destruct (rlookup (dig_item salt s) T) as [r0|] eqn:El.
+      * rewrite (Hlook r0 eq_refl) in Hf.
+        destruct (rprocess fuel T (blind s) u1) as [[v' u2]|] eqn:Er; [|rewrite foldA_none in Hf; discriminate].
+        rewrite (IH _ _ _ _ HFr Hf). rewrite (Hsound _ _ _ _ Er). rewrite <- app_assoc. reflexivity.
+      * rewrite (IH _ _ _ _ HFr Hf). reflexivity.
+    + unfold RefProofs.stepA at 2 in Hf.
+      change (single_placeholder (placeholder g0)) with (Some (Some (JStr g0))) in Hf. cbv iota in Hf.
+      destruct (use_digest g0 u) as [u1|]; [|rewrite foldA_none in Hf; discriminate].
+      rewrite Hit in Hf. rewrite (IH _ _ _ _ HFr Hf). reflexivity.
+Qed.
+
+(* ---------- objects ---------- *)
+Definition plm (m : string * (mkind * atree)) : list (string * json) :=
+  let '(name, (k, s)) := m in match k with MPlain => [(name, blind s)] | _ => [] end.
+Definition ppl (m : string * (mkind * atree)) : list (string * json) :=
+  let '(name, (k, s)) := m in match k with MPlain => [(name, proj RT s)] | _ => [] end.
+Definition msd_list (mems : amems) : option (list string) :=
+  match find (fun m : string * (mkind * atree) => match fst (snd m) with MSd _ => true | _ => false end) mems with
+  | Some (_, (MSd l, _)) => Some l
+  | _ => None end.
+
+Lemma filter_plain : forall mems : amems, Forall sd_names_ok mems ->
+  filter (fun kv : string * json => negb (String.eqb (fst kv) "_sd")) (flat_map bmem mems) = flat_map plm mems.
+Proof.
+  induction mems as [|[n [k s]] r IH]; intros Hn; [reflexivity|]. inversion Hn as [|? ? Hn1 Hn2]; subst.
+  unfold sd_names_ok in Hn1. cbn in Hn1. cbn [flat_map]. rewrite filter_app, IH by assumption.
+  destruct k as [|salt|l]; cbn [T1b.bmem plm filter fst app].
+  - destruct (String.eqb_spec n "_sd"); [contradiction|]. reflexivity.
+  - reflexivity.
+  - subst n. reflexivity.
+Qed.
+
+Lemma find_sd_blind : forall mems : amems, Forall sd_names_ok mems ->
+  find (fun kv : string * json => String.eqb (fst kv) "_sd") (flat_map bmem mems) =
+  match msd_list mems with Some l => Some ("_sd", JArr (map JStr l)) | None => None end.
+Proof.
+  unfold msd_list. induction mems as [|[n [k s]] r IH]; intros Hn; [reflexivity|]. inversion Hn as [|? ? Hn1 Hn2]; subst.
+  unfold sd_names_ok in Hn1. cbn in Hn1. cbn [flat_map]. destruct k as [|salt|l]; cbn [T1b.bmem app find fst snd].
+  - destruct (String.eqb_spec n "_sd"); [contradiction|]. apply IH. assumption.
+  - apply IH. assumption.
+  - subst n. reflexivity.
+Qed.
+
+Lemma sd_of_msd : forall mems : amems, NoDup (map fst mems) -> Forall sd_names_ok mems ->
+  sd_of mems = match msd_list mems with Some l => l | None => [] end.
+Proof.
+  unfold msd_list, sd_of. induction mems as [|[n [k s]] r IH]; intros Hnd Hn; [reflexivity|].
+  inversion Hn as [|? ? Hn1 Hn2]; subst. cbn [map fst] in Hnd. inversion Hnd as [|? ? Hni Hnd']; subst.
+  unfold sd_names_ok in Hn1. cbn in Hn1. destruct k as [|salt|l]; cbn [flat_map find fst snd app].
+  - apply IH; assumption.
+  - apply IH; assumption.
+  - subst n. (* no further _sd member *)
+    assert (Hr : flat_map (fun m : string * (mkind * atree) => match fst (snd m) with MSd l0 => l0 | _ => [] end) r = []).
+    { clear -Hni Hn2. induction r as [|[n' [k' s']] r' IHr]; [reflexivity|]. inversion Hn2 as [|? ? Hn1' Hn2']; subst.
+      unfold sd_names_ok in Hn1'. cbn in Hn1'. cbn [flat_map fst snd map] in Hni |- *.
+      assert (H1 : ~ In "_sd" (map fst r')) by (intros Hin; apply Hni; right; assumption).
+      destruct k' as [|salt'|l']; cbn [app].
+      - exact (IHr Hn2' H1).
+      - exact (IHr Hn2' H1).
+      - exfalso. apply Hni. left. assumption. }
+    rewrite Hr, app_nil_r. reflexivity.
+Qed.
+
+Lemma has_key_false_inv k (kvs : list (string * json)) : has_key k kvs = false -> ~ In k (map fst kvs).
+Proof.
+  intros Hf Hin. apply in_map_iff in Hin as [kv [Hq Hkv]]. unfold has_key in Hf.
+  assert (Ht : existsb (fun kv0 : string * json => String.eqb (fst kv0) k) kvs = true).
+  { apply existsb_exists. exists kv. split; [assumption|]. rewrite Hq. apply String.eqb_refl. }
+  congruence.
+Qed.
+
+Lemma foldP_sound fuel : forall (mems : amems) out u out' u',
+  Forall (fun m : string * (mkind * atree) => match fst (snd m) with MPlain => sound_at (snd (snd m)) | _ => True end) mems ->
+  NoDup (map fst mems) -> (forall n, In n (map fst mems) -> ~ In n (map fst out)) -> ksorted out ->
+  fold_left (stepP fuel) (flat_map plm mems) (Some (out, u)) = Some (out', u') ->
+  ksorted out' /\ (forall kv, In kv out' <-> In kv out \/ In kv (flat_map ppl mems)) /\
+  (forall n, In n (map fst out') -> In n (map fst out) \/ In n (map fst mems)).
+Proof.
+  induction mems as [|[n [k s]] r IH]; intros out u out' u' HF Hnd Hdis Hso Hf.
+  - cbn in Hf. injection Hf as <- _. split; [assumption|]. split; [intros kv; cbn; tauto|auto].
+  - inversion HF as [|? ? Hm HFr]; subst. cbn [map fst] in Hnd. inversion Hnd as [|? ? Hni Hnd']; subst.
+    cbn [flat_map] in Hf |- *. destruct k as [|salt|l]; cbn [plm ppl app] in Hf |- *.
+    + cbn [fst snd] in Hm. cbn [fold_left] in Hf. unfold RefProofs.stepP at 2 in Hf. cbn [fst snd] in Hf.
+      destruct (rprocess fuel T (blind s) u) as [[v' u1]|] eqn:Er; [|rewrite foldP_none in Hf; discriminate].
+      rewrite (Hm _ _ _ _ Er) in Hf.
+      assert (Hnout : ~ In n (map fst out)) by (apply Hdis; left; reflexivity).
+      destruct (IH (sorted_insert n (proj RT s) out) u1 out' u' HFr Hnd') as (Hs' & Hel & Hk); [| |assumption|].
+      * intros n' Hn' Hin. apply in_map_iff in Hin as [kv [Hq Hkv]]. apply sorted_insert_in in Hkv as [->|Hkv].
+        -- cbn in Hq. subst n'. contradiction.
+        -- apply (Hdis n'); [right; assumption|]. apply in_map_iff. exists kv. auto.
+      * apply sorted_insert_sorted. assumption.
+      * split; [assumption|]. split.
+        -- intros kv. rewrite Hel. split.
+           ++ intros [Hin|Hin]; [|right; right; assumption]. apply sorted_insert_in in Hin as [->|Hin]; [right; left; reflexivity|left; assumption].
+           ++ intros [Hin|[<-|Hin]]; [left; apply sorted_insert_keeps; assumption|left; apply sorted_insert_new|right; assumption].
+        -- intros n' Hn'. destruct (Hk n' Hn') as [Hin|Hin]; [|right; right; assumption].
+           apply in_map_iff in Hin as [kv [Hq Hkv]]. apply sorted_insert_in in Hkv as [->|Hkv].
+           ++ right. left. cbn in Hq |- *. exact Hq.
+           ++ left. apply in_map_iff. exists kv. auto.
+    + destruct (IH out u out' u' HFr Hnd') as (Hs' & Hel & Hk); [intros n' Hn'; apply Hdis; right; assumption|assumption|assumption|].
+      split; [assumption|]. split; [assumption|]. intros n' Hn'. destruct (Hk n' Hn'); [left|right; right]; assumption.
+    + destruct (IH out u out' u' HFr Hnd') as (Hs' & Hel & Hk); [intros n' Hn'; apply Hdis; right; assumption|assumption|assumption|].
+      split; [assumption|]. split; [assumption|]. intros n' Hn'. destruct (Hk n' Hn'); [left|right; right]; assumption.
+Qed.
+
+(* what the table says about the digests of an _sd list *)
+Definition dig_fact (mems : amems) (g : string) : Prop :=
+  forall r, rlookup g T = Some r ->
+    exists name salt s, In (name, (MHid salt, s)) mems /\ g = dig_mem salt name s /\ r = RMember name (blind s) /\ sound_at s.
+
+Lemma foldD_sound fuel (mems : amems) : NoDup (flat_map hdigs_mem mems) -> forall l out u out' u',
+  Forall (dig_fact mems) l -> ksorted out ->
+  fold_left (stepD fuel) (map JStr l) (Some (out, u)) = Some (out', u') ->
+  ksorted out' /\
+  (forall kv, In kv out' <-> In kv out \/ exists g name salt s, In g l /\ In (name, (MHid salt, s)) mems /\ g = dig_mem salt name s /\ RT g = true /\ kv = (name, proj RT s)).
+Proof.
+  intros Hndh. induction l as [|g r IH]; intros out u out' u' HF Hso Hf.
+  - cbn in Hf. injection Hf as <- _. split; [assumption|]. intros kv. split; [auto|]. intros [Hin|(g & ? & ? & ? & [] & _)]. assumption.
+  - inversion HF as [|? ? Hg HFr]; subst. cbn [map fold_left] in Hf. unfold RefProofs.stepD at 2 in Hf.
+    destruct (use_digest g u) as [u1|]; [|rewrite foldD_none in Hf; discriminate].
+    destruct (rlookup g T) as [r0|] eqn:El.
+    + destruct (Hg r0 El) as (name & salt & s & Hin & Hgq & -> & Hsound).
+      destruct (String.eqb name "_sd" || String.eqb name "..." || has_key name out) eqn:Ec; [rewrite foldD_none in Hf; discriminate|].
+      apply orb_false_iff in Ec as [_ Hhk]. apply has_key_false_inv in Hhk.
+      destruct (rprocess fuel T (blind s) u1) as [[v' u2]|] eqn:Er; [|rewrite foldD_none in Hf; discriminate].
+      rewrite (Hsound _ _ _ _ Er) in Hf.
+      destruct (IH _ _ _ _ HFr (sorted_insert_sorted name (proj RT s) out Hso) Hf) as (Hs' & Hel).
+      split; [assumption|]. intros kv. rewrite Hel. split.
+      * intros [Hi|(g' & n' & sa' & s' & Hg' & Hm' & Hq' & HR' & ->)].
+        -- apply sorted_insert_in in Hi as [->|Hi]; [|left; assumption].
+           right. exists g, name, salt, s. split; [left; reflexivity|]. split; [assumption|]. split; [assumption|]. split; [|reflexivity].
+           unfold RefProofs.RT. rewrite El. reflexivity.
+        -- right. exists g', n', sa', s'. split; [right; assumption|auto].
+      * intros [Hi|(g' & n' & sa' & s' & [<-|Hg'] & Hm' & Hq' & HR' & ->)].
+        -- left. apply sorted_insert_keeps; assumption.
+        -- (* the same digest: the same hidden member *)
+           left. assert (Hsame : (n', (MHid sa', s')) = (name, (MHid salt, s))).
+           { apply (NoDup_flat_map_same hdigs_mem mems _ _ g Hndh Hm' Hin); cbn; left; congruence. }
+           injection Hsame as -> _ ->. apply sorted_insert_new.
+        -- right. exists g', n', sa', s'. auto.
+    + destruct (IH _ _ _ _ HFr Hso Hf) as (Hs' & Hel). split; [assumption|]. intros kv. rewrite Hel. split.
+      * intros [Hi|(g' & n' & sa' & s' & Hg' & Hrest)]; [left; assumption|]. right. exists g', n', sa', s'. split; [right; assumption|assumption].
+      * intros [Hi|(g' & n' & sa' & s' & [<-|Hg'] & Hm' & Hq' & HR' & ->)]; [left; assumption| |right; exists g', n', sa', s'; auto].
+        exfalso. unfold RefProofs.RT in HR'. rewrite El in HR'. discriminate.
+Qed.
+
+Lemma ksorted_pmems R : forall mems : amems, StronglySorted slt (map fst mems) -> ksorted (flat_map (pmem H enc R) mems).
+Proof.
+  unfold ksorted. induction mems as [|[n [k s]] r IH]; intros Hs; [constructor|].
+  cbn [map fst] in Hs. apply StronglySorted_inv in Hs as [Hs Hf]. specialize (IH Hs).
+  assert (Hgt : Forall (slt n) (map fst (flat_map (pmem H enc R) r))).
+  { apply Forall_forall. intros y Hy. apply (keys_pmems H enc) in Hy. rewrite Forall_forall in Hf. auto. }
+  cbn [flat_map]. destruct k as [|salt|l]; cbn [T1m.pmem app map fst].
+  - constructor; assumption.
+  - destruct (R (dig_mem salt n s)); cbn [app map fst]; [constructor; assumption|assumption].
+  - assumption.
+Qed.
+
+Lemma in_pmems (mems : amems) kv :
+  In kv (flat_map (pmem H enc RT) mems) <->
+  In kv (flat_map ppl mems) \/ exists name salt s, In (name, (MHid salt, s)) mems /\ RT (dig_mem salt name s) = true /\ kv = (name, proj RT s).
+Proof.
+  induction mems as [|[n [k s]] r IH]; [cbn; split; [tauto|intros [[]|(? & ? & ? & [] & _)]]|].
+  cbn [flat_map]. rewrite !in_app_iff, IH. destruct k as [|salt|l]; cbn [T1m.pmem ppl].
+  - split.
+    + intros [Hh|[Hp|(n' & sa & s' & Hin & Hrest)]]; [left; left; assumption|left; right; assumption|right; exists n', sa, s'; split; [right; assumption|assumption]].
+    + intros [[Hh|Hp]|(n' & sa & s' & [Hq|Hin] & Hrest)]; [left; assumption|right; left; assumption|discriminate|right; right; exists n', sa, s'; auto].
+  - split.
+    + intros [Hh|[Hp|(n' & sa & s' & Hin & Hrest)]].
+      * destruct (RT (dig_mem salt n s)) eqn:ER; [|destruct Hh]. destruct Hh as [<-|[]]. right. exists n, salt, s. split; [left; reflexivity|auto].
+      * left. right. assumption.
+      * right. exists n', sa, s'. split; [right; assumption|assumption].
+    + intros [[[]|Hp]|(n' & sa & s' & [Hq|Hin] & HR & ->)].
+      * right. left. assumption.
+      * injection Hq as <- <- <-. left. rewrite HR. left. reflexivity.
+      * right. right. exists n', sa, s'. auto.
+  - split.
+    + intros [[]|[Hp|(n' & sa & s' & Hin & Hrest)]]; [left; right; assumption|right; exists n', sa, s'; split; [right; assumption|assumption]].
+    + intros [[[]|Hp]|(n' & sa & s' & [Hq|Hin] & Hrest)]; [right; left; assumption|discriminate|right; right; exists n', sa, s'; auto].
+Qed.
+
+(* ---------- the theorem ---------- *)
+Theorem rprocess_sound : forall t, wf t -> NoDup (alldigs t) -> NoDup (hdigs t) -> table_ok t -> sound_at t.
+Proof.
+  induction t as [j | items IH | mems IH] using atree_ind'; intros Hw Hnd Hndh Hok fuel used j0 used' Hr.
+  - inversion Hw as [? Hsc| |]; subst. destruct fuel as [|fuel]; [discriminate|]. cbn [ATree.blind] in Hr.
+    destruct j; cbn in Hsc; try destruct Hsc; cbn in Hr; injection Hr as <- _; reflexivity.
+  - (* arrays *)
+    destruct fuel as [|fuel]; [discriminate|]. rewrite (blind_arr H enc), rprocess_arr in Hr.
+    destruct (fold_left (stepA fuel) (map bitem items) (Some ([], used))) as [[out u]|] eqn:Ef; [|discriminate]. injection Hr as <- _.
+    assert (HF : Forall item_fact items).
+    { inversion Hw as [| ? Hall Hiok |]; subst. pose proof Hnd as Hnd0. pose proof Hndh as Hndh0.
+      rewrite alldigs_arr in Hnd. rewrite (hdigs_arr H enc) in Hndh.
+      rewrite Forall_forall in IH, Hall, Hiok |- *. intros [k s] Hin. specialize (IH _ Hin). cbn in IH.
+      pose proof (Hall _ Hin) as Hws. cbn in Hws.
+      pose proof (NoDup_flat_map_in adigs_item _ _ Hnd Hin) as Hn1. pose proof (NoDup_flat_map_in hdigs_item _ _ Hndh Hin) as Hn2.
+      destruct k as [|salt|g0]; cbn [item_fact]; cbn in Hn1, Hn2.
+      + split; [assumption|]. apply IH; try assumption. eapply (table_ok_item H enc T); eauto. exact I.
+      + inversion Hn1; subst. inversion Hn2; subst.
+        split; [assumption|]. split; [apply IH; try assumption; eapply (table_ok_item H enc T); eauto; exact I|].
+        intros r Hl. destruct (Hok (dig_item salt s) r) as (k & v & Hnode & ->); [rewrite alldigs_arr; apply in_flat_map; exists (IHid salt, s); split; [assumption|left; reflexivity]|assumption|].
+        assert (Hhere : IsNode (dig_item salt s) None (blind s) (AArr items)) by (eapply in_item_here; eauto).
+        destruct (IsNode_fun H enc _ _ _ _ _ _ Hndh0 Hnode Hhere) as [-> ->]. reflexivity.
+      + destruct (rlookup g0 T) as [r|] eqn:El; [exfalso|reflexivity].
+        destruct (Hok g0 r) as (k & v & Hnode & _); [rewrite alldigs_arr; apply in_flat_map; exists (IDecoy g0, s); split; [assumption|left; reflexivity]|assumption|].
+        pose proof (IsNode_hdigs H enc _ _ _ _ Hnode) as Hh. rewrite (hdigs_arr H enc) in Hh. apply in_flat_map in Hh as [it' [Hin' Hg']].
+        assert (Hga' : In g0 (adigs_item it')) by (apply (hdigs_item_adigs H enc); auto; apply (Hall _ Hin')).
+        assert (Hq : it' = (IDecoy g0, s)) by (eapply (NoDup_flat_map_same adigs_item); eauto; cbn; auto).
+        subst it'. specialize (Hiok _ Hin). cbn in Hiok. subst s. destruct Hg'. }
+    rewrite (foldA_sound fuel items [] used out u HF Ef). reflexivity.
+  - (* objects *)
+    destruct fuel as [|fuel]; [discriminate|].
+    inversion Hw as [| | ? Hs Hall Hmok]; subst.
+    pose proof (names_ok_of_wf H enc mems Hw) as Hnames.
+    pose proof (ssorted_nodup _ Hs) as Hndn.
+    pose proof Hnd as Hnd0. pose proof Hndh as Hndh0.
+    rewrite alldigs_obj in Hnd. rewrite (hdigs_obj H enc) in Hndh.
+    rewrite (blind_obj H enc), rprocess_obj, (filter_plain mems Hnames), (find_sd_blind mems Hnames) in Hr.
+    destruct (fold_left (stepP fuel) (flat_map plm mems) (Some ([], used))) as [[out u]|] eqn:Ef1; [|discriminate].
+    (* what we know about the children *)
+    assert (Hchild : forall name mk s, In (name, (mk, s)) mems -> (match mk with MSd _ => False | _ => True end) -> sound_at s).
+    { intros name mk s Hin Hmk. rewrite Forall_forall in IH, Hall. specialize (IH _ Hin). cbn in IH. apply IH.
+      - exact (Hall _ Hin).
+      - pose proof (NoDup_flat_map_in adigs_mem _ _ Hnd Hin) as Hn1. destruct mk; cbn in Hn1; [assumption|assumption|destruct Hmk].
+      - pose proof (NoDup_flat_map_in hdigs_mem _ _ Hndh Hin) as Hn2. destruct mk; cbn in Hn2; [assumption|inversion Hn2; assumption|destruct Hmk].
+      - eapply (table_ok_mem H enc T); eauto. }
+    assert (HFp : Forall (fun m : string * (mkind * atree) => match fst (snd m) with MPlain => sound_at (snd (snd m)) | _ => True end) mems).
+    { apply Forall_forall. intros [name [mk s]] Hin. cbn. destruct mk; try exact I. eapply Hchild; eauto. exact I. }
+    destruct (foldP_sound fuel mems [] used out u HFp Hndn (fun _ _ Hf => Hf) (SSorted_nil _) Ef1) as (Hso1 & Hel1 & _).
+    rewrite (proj_obj H enc).
+    assert (Hsd := sd_of_msd mems Hndn Hnames).
+    assert (Hhid_in : forall name salt s, In (name, (MHid salt, s)) mems -> In (dig_mem salt name s) (sd_of mems)).
+    { intros name salt s Hin. rewrite Forall_forall in Hmok. specialize (Hmok _ Hin). cbn in Hmok. tauto. }
+    destruct (msd_list mems) as [l|] eqn:Em.
+    + destruct (fold_left (stepD fuel) (map JStr l) (Some (out, u))) as [[out2 u2]|] eqn:Ef2; [|discriminate]. injection Hr as <- _.
+      (* the _sd member *)
+      assert (Hsdmem : exists sy, In ("_sd", (MSd l, sy)) mems).
+      { unfold msd_list in Em. destruct (find _ mems) as [[n0 [k0 s0]]|] eqn:Efd; [|discriminate]. destruct k0; try discriminate. injection Em as ->.
+        apply find_some in Efd as [Hin _]. rewrite Forall_forall in Hnames. pose proof (Hnames _ Hin) as Hn0. unfold sd_names_ok in Hn0. cbn in Hn0. subst n0. eauto. }
+      destruct Hsdmem as [sy Hsdin].
+      assert (HFd : Forall (dig_fact mems) l).
+      { apply Forall_forall. intros g Hg r Hl.
+        destruct (Hok g r) as (k & v & Hnode & ->); [rewrite alldigs_obj; apply in_flat_map; exists ("_sd", (MSd l, sy)); split; [assumption|exact Hg]|assumption|].
+        apply IsNode_obj_inv in Hnode as [(name & salt & s & Hin & Hgq & -> & ->)|(name' & mk' & s' & Hin' & Hn')].
+        - exists name, salt, s. split; [assumption|]. split; [assumption|]. split; [reflexivity|]. eapply Hchild; eauto. exact I.
+        - exfalso. rewrite Forall_forall in Hall, Hmok.
+          assert (Hg2 : In g (adigs_mem (name', (mk', s')))).
+          { pose proof (IsNode_hdigs H enc _ _ _ _ Hn') as Hh. pose proof (hdigs_alldigs H enc s' (Hall _ Hin') _ Hh) as Ha.
+            destruct mk'; cbn; auto. pose proof (Hmok _ Hin') as Hm'. cbn in Hm'. destruct Hm' as (_ & _ & ->). destruct Ha. }
+          assert (Hq : (name', (mk', s')) = ("_sd", (MSd l, sy))) by (eapply (NoDup_flat_map_same adigs_mem); eauto).
+          injection Hq as _ -> ->. pose proof (Hmok _ Hsdin) as Hm'. cbn in Hm'. destruct Hm' as (_ & _ & ->). inversion Hn'. }
+      destruct (foldD_sound fuel mems Hndh l out u out2 u2 HFd Hso1 Ef2) as (Hso2 & Hel2).
+      f_equal. apply ksorted_ext; [assumption|apply ksorted_pmems; assumption|].
+      intros kv. rewrite Hel2, Hel1, in_pmems. split.
+      * intros [[[]|Hp]|(g & name & salt & s & Hg & Hin & Hgq & HR & ->)]; [left; assumption|].
+        right. exists name, salt, s. rewrite <- Hgq. auto.
+      * intros [Hp|(name & salt & s & Hin & HR & ->)]; [left; right; assumption|].
+        right. exists (dig_mem salt name s), name, salt, s. split; [rewrite <- Hsd; apply Hhid_in; assumption|auto].
+    + injection Hr as <- _. f_equal. apply ksorted_ext; [assumption|apply ksorted_pmems; assumption|].
+      intros kv. rewrite Hel1, in_pmems. split.
+      * intros [[]|Hp]. left. assumption.
+      * intros [Hp|(name & salt & s & Hin & _)]; [right; assumption|].
+        exfalso. pose proof (Hhid_in _ _ _ Hin) as Hx. rewrite Hsd in Hx. destruct Hx.
+Qed.
+End RP2.
+
+(* ---------- ref_verify: from presented strings to the projection ---------- *)
+Require Import SDJ.Restore2 SDJ.C03Proofs.
+
+Section RV.
+Variable H : string -> string.
+Variable enc : list json -> string.
+Variable dec : string -> option json.
+Hypothesis hash_inj : forall x y, H x = H y -> x = y.
+Hypothesis dec_enc : forall ps, dec (enc ps) = Some (JArr ps).
+
+Lemma proj_ext R R' : forall t, (forall g, R g = R' g) -> proj H enc R t = proj H enc R' t.
+Proof.
+  induction t as [j | items IH | mems IH] using atree_ind'; intros Hx; [reflexivity| |].
+  - cbn [T2h.proj]. f_equal. induction items as [|[k s] r IHr]; [reflexivity|]. inversion IH as [|? ? H1 H2]; subst. cbn in H1.
+    cbn [flat_map]. rewrite (IHr H2). destruct k; [rewrite (H1 Hx)|rewrite (Hx (dig_item H enc salt s)), (H1 Hx)|]; reflexivity.
+  - cbn [T2h.proj]. f_equal. induction mems as [|[n [k s]] r IHr]; [reflexivity|]. inversion IH as [|? ? H1 H2]; subst. cbn in H1.
+    cbn [flat_map]. rewrite (IHr H2). destruct k; [rewrite (H1 Hx)|rewrite (Hx (dig_mem H enc salt n s)), (H1 Hx)|]; reflexivity.
+Qed.
+
+(* what a table built by rdecode contains *)
+Lemma rdecode_cons s r T : rdecode H dec (s :: r) = Some T ->
+  exists T0 e, rdecode H dec r = Some T0 /\ T = (H s, e) :: T0 /\
+    (match e with
+     | RMember name v => exists salt, dec s = Some (JArr [salt; JStr name; v])
+     | RElement v => exists salt, dec s = Some (JArr [salt; v]) end).
+Proof.
+  intros Hd. unfold rdecode in Hd. cbn [fold_right] in Hd. fold (rdecode H dec r) in Hd.
+  destruct (rdecode H dec r) as [T0|]; [|discriminate].
+  destruct (dec s) as [j|]; [|discriminate].
+  destruct j as [| | | |xs|]; try discriminate.
+  destruct xs as [|a xs]; [discriminate|]. destruct xs as [|b xs]; [discriminate|].
+  destruct xs as [|c xs].
+  - exists T0, (RElement b). destruct b; injection Hd as <-; eauto.
+  - destruct xs as [|d xs].
+    + destruct b; try discriminate. injection Hd as <-. exists T0, (RMember s0 c). eauto.
+    + destruct b; discriminate.
+Qed.
+
+Lemma rdecode_lookup : forall L T, rdecode H dec L = Some T ->
+  forall g, (forall r, rlookup g T = Some r -> exists s, In s L /\ H s = g /\
+                (match r with
+                 | RMember name v => exists salt, dec s = Some (JArr [salt; JStr name; v])
+                 | RElement v => exists salt, dec s = Some (JArr [salt; v]) end)) /\
+            (rlookup g T = None -> forall s, In s L -> H s <> g).
+Proof.
+  induction L as [|s0 r IH]; intros T Hd g.
+  - cbn in Hd. injection Hd as <-. split; [intros r0 Hr; discriminate|intros _ s []].
+  - destruct (rdecode_cons s0 r T Hd) as (T0 & e & Hr0 & -> & He). specialize (IH T0 Hr0 g). destruct IH as [IH1 IH2].
+    unfold rlookup. cbn [find fst snd]. destruct (String.eqb_spec (H s0) g) as [Hq|Hne].
+    + split; [|discriminate]. intros r0 Hr. injection Hr as <-. exists s0. split; [left; reflexivity|]. split; assumption.
+    + fold (rlookup g T0). split.
+      * intros r0 Hr. destruct (IH1 r0 Hr) as (s & Hs & Hrest). exists s. split; [right; assumption|assumption].
+      * intros Hn s [<-|Hs]; [assumption|apply IH2; assumption].
+Qed.
+
+Variable t : atree.
+Hypothesis Hwf : wf H enc t.
+Hypothesis Hnd : NoDup (alldigs H enc t).
+Hypothesis Hndh : NoDup (hdigs H enc t).
+
+(* C07 / C08: whenever the specification's algorithm accepts a list of presented strings for the payload of a
+   conformant token, its result is the projection determined by the presented set - the same value the
+   library model's restorer returns (C03Proofs) *)
+Theorem ref_verify_sound L j :
+  (forall s, In s L -> In (H s) (alldigs H enc t) -> In (H s) (hdigs H enc t)) ->
+  ref_verify H dec (blind H enc t) L = Some j -> j = drop_alg (proj H enc (ownS H L) t).
+Proof.
+  intros Hdecoy Hv. unfold ref_verify in Hv. destruct (rdecode H dec L) as [T|] eqn:Ed; [|discriminate].
+  pose proof (rdecode_lookup L T Ed) as Hlk.
+  assert (HRT : forall g, RT T g = ownS H L g).
+  { intros g. unfold RT, ownS. destruct (Hlk g) as [H1 H2]. destruct (rlookup g T) as [r|] eqn:El.
+    - destruct (H1 r eq_refl) as (s & Hs & Hq & _). symmetry. apply existsb_exists. exists s. split; [assumption|]. rewrite Hq. apply String.eqb_refl.
+    - symmetry. apply not_true_is_false. intros Ht. apply existsb_exists in Ht as [s [Hs Hq]]. apply String.eqb_eq in Hq. exact (H2 eq_refl s Hs Hq). }
+  assert (Hok : table_ok H enc T t).
+  { intros g r Hg Hl. destruct (Hlk g) as [H1 _]. destruct (H1 r Hl) as (s & Hs & Hq & Hparts).
+    assert (Hh : In g (hdigs H enc t)) by (rewrite <- Hq; apply Hdecoy; [assumption|rewrite Hq; assumption]).
+    destruct (hdigs_node H enc g t Hh) as (salt & k & v & Hnode & Hgq).
+    exists k, v. split; [assumption|].
+    assert (Hs' : s = enc (parts_of salt k v)) by (apply hash_inj; congruence).
+    rewrite Hs', dec_enc in Hparts. destruct r as [name v'|v']; destruct Hparts as [salt' Hp]; destruct k as [name0|]; cbn in Hp; try discriminate.
+    - injection Hp as _ <- <-. reflexivity.
+    - injection Hp as _ <-. reflexivity. }
+  destruct (rprocess 200 T (blind H enc t) []) as [[j' u]|] eqn:Er; [|discriminate].
+  pose proof (rprocess_sound H enc T t Hwf Hnd Hndh Hok _ _ _ _ Er) as Hj. subst j'.
+  rewrite (proj_ext (RT T) (ownS H L) t HRT) in Hv.
+  unfold drop_alg. destruct (proj H enc (ownS H L) t); injection Hv as <-; reflexivity.
+Qed.
+End RV.
